@@ -38,7 +38,34 @@ PROPS = {    "C01": {
         "streams": [S("ledger", 60, 3000)],
         "rule": LEDGER_RULE,
         "partial": "methods of non-token contracts are parameters of the model (their observed descendant sends are inputs, "
-                   "checked for funding and exact refund); genesis consistency is C20",
+                   "checked for funding and exact refund); genesis consistency (T5) is C20; unconfirmed-pool states and "
+                   "rollbacks are covered by the stream's monitor, not by theorems; T3 takes the send-time check "
+                   "MaxSupply >= TotalSupply of an issue call as a hypothesis on admissible events (the model does not repeat it "
+                   "at receive time)",
+        "assumptions": ["hashes are opaque identifiers (collision-free): new send hashes are fresh and descendants pairwise distinct"],
+    },
+    "C04": {
+        "module": "ZenonVerif.Props.C04",
+        "streams": [S("ledger", 60, 3000)],
+        "rule": LEDGER_RULE,
+        "partial": "state-level theorems about the current chain of one node: reorganisation, replacement of unconfirmed "
+                   "blocks and restart (DESIGN C04-T5) are not modelled — they are covered by the stream's monitors only; "
+                   "the sequencer is modelled as the list of confirmed sends filtered by addressee, not as the stored "
+                   "front/back counters; below ReceiverMismatchEnforcementHeight only per-account at-most-once and FIFO hold (F8)",
+        "assumptions": ["hashes are opaque identifiers (collision-free): new send hashes are fresh and descendants pairwise distinct"],
+    },
+    "C09": {
+        "module": "ZenonVerif.Props.C09",
+        "streams": [S("ledger", 60, 3000)],
+        "rule": LEDGER_RULE,
+        "partial": "methods of non-token contracts are parameters of the model (status and descendants are observed inputs), so "
+                   "termination / panic-freedom of the Go methods and of the ABI decoder (DESIGN C09-T3..T5) is established by "
+                   "correspondence only; proved: complete-or-exact-refund with the contract's balance delta, the inbox advances by "
+                   "exactly one, the refund of whatever is next in line is always accepted for a non-token contract, and the token "
+                   "contract always has an accepted outcome when the zero token standard has no storage entry (negative witness "
+                   "without it). The model's applySend does not run the destination contract's method lookup / ValidateSendBlock: "
+                   "in Go a refund whose recipient is itself an embedded contract (empty call data) is refused by applySend, so "
+                   "refund_always_possible transfers to the code for non-embedded senders only",
         "assumptions": ["hashes are opaque identifiers (collision-free)"],
     },
     "C03": {
@@ -62,11 +89,78 @@ PROPS = {    "C01": {
                    "historical scans drop empty-valued keys (known finding F3b)",
         "assumptions": ["goleveldb snapshot isolation and memdb thread-safety", "sequential executions only"],
     },
+    "C02": {
+        "module": "ZenonVerif.Props.C02",
+        "streams": [S("sync", 12, 200, timeout=7200)],
+        "rule": "sync stream: one evaluation = one line: a momentum's redo patch replayed into the Lean manager model, or the "
+                "frontier digest of one follower under one delivery schedule (one-by-one / random batches up to 40 / account "
+                "blocks gossiped 0..3 momentums ahead / restarts on the same directory / batches up to 120 with overlaps); per "
+                "history one producing node (transfers, receives, token issue/mint/burn, fuse, stake, delegate, refunds, blocks "
+                "acknowledging momentums up to 40 below the frontier) and five followers; monitors: every momentum accepted by "
+                "every follower, byte-identical frontier key space on all followers and the producer, identical query answers",
+        "partial": "that the Go VM is a function of exactly the inputs the model names is established by the multi-node "
+                   "correspondence and the nondeterminism-site fact, not by a theorem; map-iteration order inside methods is only sampled",
+        "assumptions": ["SHA3 collision freedom (ChangesHash pins the patch)"],
+    },
+    "C17": {
+        "module": "ZenonVerif.Props.C17",
+        "streams": [S("spork", 10, 300, timeout=7200)],
+        "rule": "spork stream: one evaluation = one line of a scenario on a real node: outcome of a create/activate call "
+                "(right key, wrong key, repeated, unknown id), IsSporkActive of every spork on the store of every height, the "
+                "unimplemented-spork report on every height, availability of a (contract, method) for a block acknowledging a "
+                "momentum within ±2 of an enforcement height (live and against historical momentums); two thirds of the scenarios "
+                "activate in the order accelerator/bridge/htlc, the rest in random order, a quarter add an unknown spork; "
+                "distinct = distinct lines",
+        "partial": "gating is exact only when sporks are enforced in the order accelerator, bridge&liquidity, htlc (known "
+                   "finding F17); the case 'activating receive confirmed later than the enforcement height' is excluded by "
+                   "hypothesis of gate_by_height's use (state as of the recording momentum) and not reachable on the mock chain; "
+                   "'identically on every node' is C02/C07",
+    },
+    "C08": {
+        "module": "ZenonVerif.Props.C08",
+        "streams": [S("crash", 25, 1500, timeout=7200)],
+        "rule": "crash stream: one evaluation = one commit/rollback of a generated history on a real NewLevelDBManager whose "
+                "journal is parsed before/after (write count + batch content replayed against the Lean write plan), plus one "
+                "crash image per cut point (journal truncated after write k, reopened with goleveldb and NewLevelDBManager: raw "
+                "key space must equal the state before or after; frontier pointer / keys / undo-redo records must agree; the "
+                "same and a competing transaction are re-delivered and compared with crash-free runs); distinct = distinct lines",
+        "partial": "process death is reproduced at the granularity of leveldb writes (one journal record per Put/Delete/Write); "
+                   "durability below leveldb (fsync, power loss, torn journal records) is leveldb's own recovery and is trusted; "
+                   "the node-level commit (chain.AddMomentumTransaction) adds no further leveldb write to the ledger database",
+        "assumptions": ["goleveldb: one journal record per write call, handed to the OS before the call returns; a batch is atomic w.r.t. process death"],
+    },
     "C06": {
         "module": "ZenonVerif.Props.C06",
         "streams": [S("vdb", 400, 20000, arg="mix=pop")],
         "rule": VDB_RULE + "; pop-heavy mix: views are opened before a branch switch and re-read after it",
         "partial": "pool-after-switch and consensus statistics after a switch are covered by the two-node sync stream (C02), not by theorems yet",
+    },
+    "C05": {
+        "module": "ZenonVerif.Props.C05",
+        "streams": [S("election", 2000, 40000), S("ticker", 4000, 400000), S("mverify", 40, 300)],
+        "rule": "election stream: delegation sets of 1..60 pillars (names: numbered / case variants / prefixes of one "
+                "another / arbitrary bytes / realistic; weights: all equal / all zero / few values / ZNN amounts / >64 bit "
+                "/ one heavy / distinct) x heights (small, uniform uint64, 2^63 and 2^64 boundaries) x (NodeCount,RandCount) "
+                "(live 30/15 in 60% of the cases, small and random groups otherwise) through the real SelectProducers; "
+                "distinct = distinct (op,result) lines; every line is evaluated on the real code and on the model, and "
+                "the monitors re-run the real code on a permuted copy of the input. ticker stream: ToTick/ToTime at tick "
+                "boundaries +-1 s, before the start, beyond the 292-year int64 range, generateProducers/genProofTime for live and "
+                "random (BlockTime,NodeCount). mverify stream: n rounds on a real mock chain (slots and whole ticks skipped, "
+                "delegations and balances changing); per round the valid next momentum and ~50 variants (every single-field "
+                "mutation, the same re-hashed and re-signed by the elected pillar, re-timed, signed by a non-elected pillar or a "
+                "user, content dropped/duplicated/reordered) judged by the real Supervisor.ApplyMomentum and by the model, plus "
+                "GetMomentumBeforeTime at every timestamp +-1 s against the specification and the loop model, plus "
+                "GetMomentumProducer for all slots of two ticks on the caching instance and on a cold instance",
+        "partial": "rand.Perm and sort.Sort are parameters (any permutation / any sorted permutation); hashes, ed25519 and the "
+                   "momentum VM are oracle values; GetMomentumBeforeTime = specification is proved for whole-second instants "
+                   "(all callers) and only as partial correctness for sub-second instants (the real loop can spin there: "
+                   "before_time_subsecond_hangs); ToTick is modelled for whole-second instants only (Duration.Seconds() is a "
+                   "float; the last nanosecond of a tick rounds up for chains older than 194 days - counted by the ticker "
+                   "stream, not judged); the ticker theorems hold within 292 years of genesis (int64 ns Duration; negative "
+                   "witness ticker_wraps_after_292_years); ComputePillarDelegations (weights from balances) is taken from the real code; schedule equality after "
+                   "restart / reorganisation across nodes is left to the sync stream (C06/C16)",
+        "assumptions": ["math/rand.Perm returns a permutation of 0..n-1 (checked by the driver on every shipped oracle value)",
+                        "sort.Sort returns a sorted permutation of its input"],
     },
     "C12": {
         "module": "ZenonVerif.Props.C12",
@@ -78,11 +172,115 @@ PROPS = {    "C01": {
                    "the plasma stream once the mock-node harness is attached",
         "assumptions": ["SHA3-256 is an uninterpreted parameter of checkPoWNonce"],
     },
+    "C13": {
+        "module": "ZenonVerif.Props.C13",
+        "streams": [S("codec", 4000, 100000), S("calldata", 6000, 300000, driver=False)],
+        "rule": "codec stream: generated account blocks of all 5 block types (plus out-of-range types), up to 3 levels of "
+                "nested descendants, amounts nil/0/1/2^255-1/2^255/2^256-1/2^256/33+ bytes/negative, uint64 fields on varint "
+                "boundaries, data nil/empty/127/128/16383/16384/20000 bytes, and momentums with 0..101 content entries; "
+                "one evaluation = one value pushed through the real ComputeHash / Serialize / Deserialize / JSON / RLP code "
+                "and the same operation replayed by the Lean model; distinct = distinct (op,result) lines. calldata stream: "
+                "every ValidateSendBlock of the embedded contracts on canonical and re-arranged ABI call data (trailing bytes, "
+                "dirty padding, relocated tails); evaluated on the real code only (no Lean replay)",
+        "partial": "hash function is a parameter (injective on the inputs that arise); the two-node stream `variants` and the "
+                   "acceptance-side theorem uncovered_fields_normalised (T2: stored bytes are a function of covered fields and "
+                   "state) are not built in this round; RLP: generic item round trip is a theorem and the typed encoder is "
+                   "byte-equal to go-ethereum on the stream, the typed decoder (reflection over Go structs) is covered by "
+                   "Go-side round-trip monitors only; JSON object structure is not modelled (amount / nonce text forms are); "
+                   "T4 (call data canonical) has no Lean model of the ABI: it is an AST fact (every ValidateSendBlock "
+                   "re-packs block.Data) plus model-free monitors on every embedded method",
+        "assumptions": ["SHA3-256 (types.NewHash) is an uninterpreted parameter H: fixed 32-byte output, collision-free on the "
+                        "pre-images, data and descendant/content sources of the blocks compared"],
+    },
+    "C19": {
+        "module": "ZenonVerif.Props.C19",
+        "streams": [S("wallet", 600, 30000, timeout=7200)],
+        "rule": "wallet stream: path strings (fixed malformed set, boundary segments 2^31-1/2^31/2^32-1/2^32/leading zeros/"
+                "20+ digits, random valid paths, a third of them mutated by one byte edit), DeriveForPath / DeriveWithIndex "
+                "on those with seeds of 0..128 bytes, PubKeyToAddress on 0..64-byte strings, keyStoreFromEntropy on 0..64-byte "
+                "entropies, key files for entropies of 16/20/24/28/32 bytes x 7 passwords (empty, unicode, 4 kB, binary) with "
+                "write -> read -> decrypt, wrong passwords, single-bit flips of ciphertext/nonce/salt (one complete sweep of all "
+                "bits of one file + 6 random bits per further file) and header edits; one evaluation = one call of the real "
+                "wallet code replayed through the Lean model with the primitives supplied as oracle values; distinct = "
+                "distinct (op,result) lines",
+        "partial": "'fails with any other password / after any change to ciphertext, nonce or salt' is AES-GCM authenticity "
+                   "and Argon2id behaviour: an assumption, exercised by the stream (wrong passwords, bit flips), not a theorem; "
+                   "JSON text encoding of the key file (hexutil / bech32) is exercised by the stream only; Timestamp is wall "
+                   "clock and excluded",
+        "assumptions": ["HMAC-SHA512, SHA3-256, Ed25519, Argon2id, AES-256-GCM, BIP-39 are uninterpreted parameters "
+                        "(structure Crypto) with laws open_seal, verify_sign, hmac_len, sha3_len as explicit fields"],
+    },
     "C18": {
         "module": "ZenonVerif.Props.C18",
-        "streams": [S("paging", 30000, 2000000)],
+        "streams": [S("paging", 30000, 2000000), S("rpc", 6, 300, timeout=7200), S("rpcserver", 1500, 200000)],
         "rule": "paging stream: (index,count,len) over the full uint32 range with boundary bias + complete page sweeps of "
-                "random lists; distinct = distinct (op,result) lines",
-        "partial": "JSON-RPC server robustness and the ~80 embedded getters are runtime/correspondence only",
+                "random lists; rpc stream: the real LedgerApi called in-process on generated chains (momentums/account blocks by page "
+                "and by height, unreceived blocks) with indices, sizes, heights, counts over boundary values and the full integer "
+                "range for known, unknown and contract addresses, each list printed as heights for the model and compared by "
+                "monitors with the stores; complete page sweeps; JSON round trip of every returned block; distinct = distinct lines",
+        "partial": "the ~80 embedded-contract getters and the robustness of the JSON-RPC server against hostile byte strings "
+                   "are not modelled (runtime behaviour); the ledger API is covered in-process on generated chains",
+    },
+    "C14": {
+        "module": "ZenonVerif.Props.C14",
+        "streams": [S("prio", 20000, 1000000), S("filter", 4000, 200000), S("pool", 400, 30000),
+                    S("pool-batch", 60, 3000, driver=False)],
+        "rule": "prio stream: all ordered pairs of boundary (TotalPlasma, BasePlasma) values incl. 0 and the caps, then random "
+                "pairs (equal ratios, same plasma, same hash, hashes one bit apart, zero plasma, full uint64 range so the "
+                "products wrap, in-range), each evaluated in both directions on chain.higherPriority and on the model, plus "
+                "folds of 2-7 competitors in two random arrival orders; filter stream: block-type strings up to 300 long "
+                "(uniform types, contract batches incl. runs of 90-120 ContractSends, user blocks with batches, mostly "
+                "sends) through accountPool.filterBlocksToCommit and the model; pool stream: sequences of 5-34 operations on a real "
+                "chain.NewAccountPool for one address (add on top, competitor for a pooled height with equal/better/random "
+                "plasma, duplicates, competitor of a confirmed block, non-linking blocks, forced adds, momentum confirming "
+                "a prefix of the pool / a competitor / nothing, momentum rollback), after every operation the frontier and "
+                "the uncommitted blocks are compared with the Lean state machine; pool-batch stream (monitors only): a contract "
+                "receive with 0-3 descendant blocks pooled across a momentum, and 2-6 addresses rebuilt by one momentum that "
+                "forks some of them; distinct = distinct (op,result) lines",
+        "partial": "data-race freedom / readers never observing a half-applied block are runtime properties of Go's memory "
+                   "model, not theorems; the pool state machine (model and stream) covers one address and one-block transactions; "
+                   "contract receives with descendant blocks are covered by the pool-batch monitors only; independence of the "
+                   "addresses in rebuild is the regenerated fact rebuild_no_early_return plus the pool-batch multi-address monitor",
+        "assumptions": ["accepted user blocks carry TotalPlasma <= MaxPlasmaForAccountBlock and 0 < BasePlasma <= "
+                        "AccountBlockBasePlasma + ABByteDataPlasma*MaxDataLength (vm.enoughPlasma); blocks of embedded "
+                        "addresses carry TotalPlasma = BasePlasma = 0"],
+    },
+    "C11": {
+        "module": "ZenonVerif.Props.C11",
+        "streams": [S("rewards-pure", 20000, 300000)],
+        "rule": "rewards-pure stream: the vm/constants reward lookups on every epoch 0..400, tick boundaries up to 2^64-1 and "
+                "random epochs; getWeightedStake / getWeightedLiquidityStake / getWeightedSentinel on entries starting or "
+                "revoked before, at the edges of, inside and after the epoch window (incl. the 90% sentinel threshold); "
+                "computePillarRewardForEpoch on random epoch statistics (1-100 pillars, missed slots, zero expected, zero "
+                "total weight, a twelfth each invalid: produced > expected, total weight below the sum); and the contract "
+                "functions computeStakeRewardsForEpoch / computeSentinelRewardsForEpoch / computeDetailedPillarReward / "
+                "computeLiquidityStakeRewardsForEpoch (token tuples, additional reward, a fifteenth with percentages above 100%) run on "
+                "an in-memory contract storage with generated entries, pillars, give-percentages and backers, reading back "
+                "the RewardDeposit of every address; distinct = distinct (op,result) lines",
+        "partial": "T4 epoch cursor / exactly-once per epoch, T5 collect-once and 'identical on all nodes' need the mock-node "
+                   "and two-node streams (not part of this check yet); premises produced<=expected, sum of weights <= total weight, sum expected <= MomentumsPerEpoch "
+                   "are consensus facts (C05) taken as hypotheses",
+        "assumptions": ["epoch statistics satisfy produced_i <= expected_i and sum of pillar weights <= TotalWeight",
+                        "epoch windows are unix seconds with |t| <= 2^62 (int64 subtraction does not wrap)",
+                        "pillar give-percentages are <= 100 (checkPillarPercentages)"],
+    },
+    "C20": {
+        "module": "ZenonVerif.Props.C20",
+        "streams": [S("genesis", 150, 5000, timeout=7200)],
+        "rule": "genesis stream: per case one random CONSISTENT configuration derived from the mock genesis (2-9 users, 2-5 tokens, "
+                "1-5 pillars, delegations, legacy entries, 0-7 fusions with distinct ids, 0-4 swap entries, optional sporks, "
+                "optional swap/token/stake contract entries), 4 permutations of every unordered list -> NewGenesis hash in process "
+                "(every 5th config also in two fresh subprocesses), 6 single-entry perturbations drawn from 25 kinds -> real "
+                "CheckGenesis (whole and validator by validator) vs model verdict, accepted configurations are started on a fresh "
+                "chain and the ledger is compared with the statement's sums, every 3rd config a LevelDB created with A is restarted "
+                "with B and with permuted A; 20 header lists per config through the real NewMomentumContent; distinct = distinct "
+                "(op,result) lines",
+        "partial": "invariance of the full genesis momentum (hash, patch of all embedded storage) under list permutation and across "
+                   "fresh processes is decided by the stream on the real code, not by a theorem (the theorems cover the two "
+                   "order-sensitive mechanisms: sorted momentum content, commuting writes to distinct keys); the contract-holding "
+                   "and supply clauses of CheckGenesis hold only under extra premises (contract has a GenesisBlocks entry; one entry "
+                   "per address) and TotalSupply <= MaxSupply is unchecked: _partial theorems + negative witnesses, known findings "
+                   "F13a/F13b/F13c/F13e (and F13d: ReadGenesisConfigFromFile returns (nil,nil) on a missing amount)",
+        "assumptions": ["SHA3 / ABI packing / LevelDB are not modelled: genesis hash equality is observed on the real code"],
     },
 }
